@@ -179,3 +179,224 @@ Proof.
   destruct H as (H1 & H2 & H3 & H4). repeat split; try assumption; try lra.
   destruct (C12_ball [1; 2]%R [3; 4]%R 2%R (1 / 2)%R H1 H2 H3 H4) as (_ & E & _). rewrite E. lra.
 Qed.
+
+(* ==================================================================================================================== *)
+(* EXTENSION: sample_from_ball in binary64 (Flocq), gboost::sampler_t (dispatch, count, weights)                        *)
+(* ==================================================================================================================== *)
+(* Models: C12_Float_Defs (executable PrimFloat twin of the element-wise statement, count), C12_Float (standard model:
+   rnd = round-to-nearest-even to binary64, u = 2^-53, g k = (1 + u)^k - 1, NU t = "t does not underflow"), C12_Gboost_Defs
+   (the sampler's dispatch on top of the sampling models above).  `sqrt` below is the real square root. *)
+From Flocq Require Import Core.
+From LNGen Require Import Src_sampling Src_gbsampler.
+From LN Require Import C12_Float_Defs C12_Float.
+Local Open Scope R_scope.
+
+(* ---- the twin's operator tree is the source expression (translated on every run) ---------------------------------------- *)
+Theorem C12_fl_shape_is_source :
+  (forall x0 radius z b nrm sq n1 ninf : Z, ball_shape zops x0 radius z b nrm = src_ball_point x0 radius z b nrm sq n1 ninf) /\
+  (forall radius z nrm a b,
+     ball_comp radius z nrm a b = PrimFloat.add a (PrimFloat.div (PrimFloat.mul (PrimFloat.mul radius z) b) nrm) /\
+     ball_comp radius z nrm a b = ball_shape fops a radius z b nrm) /\
+  (forall ratio size : Z, count_shape zops ratio size = src_gb_count_product ratio size) /\
+  (forall ratio n, gb_count ratio n = trunc_float (PrimFloat.mul ratio (float_of_size n))).
+Proof. split; [exact shape_is_source|]. split; [exact twin_is_shape|]. split; [exact count_shape_is_source|reflexivity]. Qed.
+Print Assumptions C12_fl_shape_is_source.
+
+(* ---- the norm: the rounded squares added in ANY order (reduction tree t), then a correctly rounded square root ------------
+   nrm is within sqrt(1 -+ g n) (1 -+ u) of the exact norm; `norm_lower` is the half the ball needs *)
+Theorem C12_fl_norm_any_tree : forall t us,
+  Permutation (sleaves t) (squares us) -> Forall (fun b => NU (b * b)) us -> 0 < sumsq us -> g (length us) < 1 ->
+  let nrm := rnd (R_sqrt.sqrt (sfl t)) in
+  R_sqrt.sqrt (sumsq us) * ((1 - u) * R_sqrt.sqrt (1 - g (length us))) <= nrm /\
+  nrm <= R_sqrt.sqrt (sumsq us) * ((1 + u) * R_sqrt.sqrt (1 + g (length us))) /\ 0 < nrm.
+Proof. exact norm_any_tree. Qed.
+Print Assumptions C12_fl_norm_any_tree.
+
+(* ---- the element-wise part, for ANY positive value nrm the reduction returned: the distance from the centre is at most
+        (1 + u)^3 rnd(radius z) |us| / nrm  +  u |x0|   (three roundings of the offset, one of the final addition) ------------- *)
+Theorem C12_fl_ball_any_norm : forall x0 us radius z nrm,
+  length x0 = length us -> Forall fmt x0 -> 0 < nrm -> 0 <= rnd (radius * z) ->
+  Forall (comp_NU (rnd (radius * z)) nrm) us ->
+  norm2 (vsub (fl_ball x0 us radius z nrm) x0) <= (1 + u) ^ 3 * rnd (radius * z) / nrm * norm2 us + u * norm2 x0.
+Proof. exact ball_fl_any_norm. Qed.
+Print Assumptions C12_fl_ball_any_norm.
+
+(* ---- what the code guarantees: NOT "inside the ball" (refuted below) but inside the ball of radius
+        radius (1 + g (n + 5)) + u |x0|_2,  g (n + 5) = (1 + 2^-53)^(n + 5) - 1 <= (n + 5) u / (1 - (n + 5) u);
+        hypotheses: z in [0, 1] (libm's pow; checked on every observed value), u <> 0, no underflow ------------------------------ *)
+Theorem C12_fl_ball : forall x0 us radius z nrm,
+  length x0 = length us -> Forall fmt x0 -> fmt radius -> 0 < radius -> 0 <= z <= 1 ->
+  0 < sumsq us -> g (length us) <= / 2 -> norm_lower (length us) (sumsq us) nrm ->
+  Forall (comp_NU (rnd (radius * z)) nrm) us ->
+  norm2 (vsub (fl_ball x0 us radius z nrm) x0) <= radius * (1 + g (length us + 5)) + u * norm2 x0.
+Proof. exact ball_fl_R. Qed.
+Print Assumptions C12_fl_ball.
+
+Theorem C12_fl_ball_any_tree : forall x0 us radius z t,
+  length x0 = length us -> Forall fmt x0 -> fmt radius -> 0 < radius -> 0 <= z <= 1 ->
+  Permutation (sleaves t) (squares us) -> Forall (fun b => NU (b * b)) us -> 0 < sumsq us -> g (length us) <= / 2 ->
+  let nrm := rnd (R_sqrt.sqrt (sfl t)) in
+  Forall (comp_NU (rnd (radius * z)) nrm) us ->
+  norm2 (vsub (fl_ball x0 us radius z nrm) x0) <= radius * (1 + g (length us + 5)) + u * norm2 x0.
+Proof. exact ball_fl_tree. Qed.
+Print Assumptions C12_fl_ball_any_tree.
+
+(* the explicit constant (this is what the harness evaluates on every sample) *)
+Theorem C12_fl_ball_constant : forall n, INR (n + 5) * u <= / 4 ->
+  g n <= / 2 /\ g (n + 5) <= INR (n + 5) * u / (1 - INR (n + 5) * u) /\ g (n + 5) <= 2 * (INR (n + 5) * u).
+Proof. exact ball_constant. Qed.
+Print Assumptions C12_fl_ball_constant.
+
+(* ---- the same for the values the binary64 code produces: `ball_ok` (executable; evaluated by the driver on every observed
+        call) = inputs and intermediates finite, radius > 0, 0 <= z <= 1, nrm > 0, no underflow in product and quotient ------------ *)
+Theorem C12_fl_ball_twin : forall x0 us radius z nrm,
+  ball_ok x0 us radius z nrm = true ->
+  0 < sumsq (map FR us) -> g (length us) <= / 2 -> norm_lower (length us) (sumsq (map FR us)) (FR nrm) ->
+  length (ball_twin x0 us radius z nrm) = length x0 /\
+  norm2 (vsub (map FR (ball_twin x0 us radius z nrm)) (map FR x0))
+    <= FR radius * (1 + g (length us + 5)) + u * norm2 (map FR x0).
+Proof. exact ball_twin_bound. Qed.
+Print Assumptions C12_fl_ball_twin.
+
+(* ---- "points sampled from a ball lie inside it" is FALSE for the binary64 code: radius 1e6, centre (0, 0), z = 1 - 2^-53,
+        deviates (-0x1.7c03341f189dcp-3, 0x1.03af4435af225p+0), norm = sqrt(u0 u0 + u1 u1) rounded at every step: all
+        hypotheses of C12_fl_ball_twin hold (and z < 1) and the point lies outside the ball (by 4.7e-11) --------------------------- *)
+Theorem C12_fl_ball_inside_refuted : exists x0 us radius z nrm t,
+  ball_ok x0 us radius z nrm = true /\ squares_nu us = true /\ FR z < 1 /\
+  sleaves t = squares (map FR us) /\ FR nrm = rnd (R_sqrt.sqrt (sfl t)) /\
+  FR radius < norm2 (vsub (map FR (ball_twin x0 us radius z nrm)) (map FR x0)).
+Proof.
+  exists wit_x0, wit_u, wit_radius, wit_z, wit_nrm, wit_tree.
+  destruct wit_outside as (A & B & C & D). destruct wit_nrm_is_tree as (_ & E & F). repeat split; assumption.
+Qed.
+Print Assumptions C12_fl_ball_inside_refuted.
+
+(* ---- gboost::sampler_t: count = static_cast<tensor_size_t>(m_ratio * static_cast<scalar_t>(n)) ------------------------------
+        the count is the floor of the ROUNDED binary64 product (not of the exact one), and stays in [0, n] for a ratio in [0, 1]
+        (so the precondition count <= samples.size() of sample_without_replacement holds) *)
+Theorem C12_gb_count_general : forall ratio n, fin ratio -> 0 <= FR ratio <= 1 -> (0 <= n < 2 ^ 53)%Z ->
+  gb_count ratio n = Zfloor (rnd (FR ratio * IZR n)) /\ (0 <= gb_count ratio n <= n)%Z.
+Proof. exact gb_count_general. Qed.
+Print Assumptions C12_gb_count_general.
+
+(* dyadic ratios k / 2^j: the product is exact while k n < 2^53 (e.g. j <= 22, n < 2^31), the count is floor(k n / 2^j) *)
+Theorem C12_gb_count_dyadic : forall ratio k j n, fin ratio -> (0 <= j <= 1000)%Z -> FR ratio = IZR k * bpow radix2 (- j) ->
+  (0 <= k <= 2 ^ j)%Z -> (0 <= n)%Z -> (k * n < 2 ^ 53)%Z -> (n < 2 ^ 53)%Z ->
+  gb_count ratio n = (k * n / 2 ^ j)%Z.
+Proof. exact gb_count_dyadic. Qed.
+Print Assumptions C12_gb_count_dyadic.
+
+Theorem C12_gb_count_one : forall n, (0 <= n < 2 ^ 53)%Z -> gb_count fone n = n.
+Proof. exact gb_count_one. Qed.
+Print Assumptions C12_gb_count_one.
+
+(* the floor is taken of the ROUNDED product: double(0.7) * 10 < 7 but the product rounds to 7.0, the count is 7 *)
+Theorem C12_gb_count_exact_floor_refuted : exists ratio n, fin ratio /\ 0 <= FR ratio <= 1 /\
+  gb_count ratio n <> Zfloor (FR ratio * IZR n).
+Proof.
+  exists ex_ratio_07, 10%Z. destruct gb_count_not_exact_floor as (F & R & C & E).
+  split; [exact F|]. split; [exact R|]. rewrite C, E. discriminate.
+Qed.
+Print Assumptions C12_gb_count_exact_floor_refuted.
+
+(* decimal ratios are not dyadic: with ratio = 0.29 (the double nearest to it) and n = 100 the count is 28, not 29 *)
+Theorem C12_gb_count_decimal_refuted : exists n, gb_count ex_ratio_029 n <> (29 * n / 100)%Z.
+Proof. exists 100%Z. destruct gb_count_decimal as [E1 E2]. rewrite E1, E2. discriminate. Qed.
+Print Assumptions C12_gb_count_decimal_refuted.
+
+From LN Require Import C12_Gboost_Defs C12_Gboost.
+Local Open Scope Z_scope.
+
+(* ---- gboost::sampler_t::sample: the dispatch (translated `return` of every case of the switch) -------------------------------- *)
+Theorem C12_gb_dispatch :
+  gb_call k_off = 0 /\ gb_call k_subsample = 1 /\ gb_call k_bootstrap = 2 /\ gb_call k_wei_loss = 3 /\ gb_call k_wei_grad = 3 /\
+  (forall k, ~ In k [k_off; k_subsample; k_bootstrap; k_wei_loss; k_wei_grad] -> gb_call k = -1).
+Proof. exact gb_call_table. Qed.
+Print Assumptions C12_gb_dispatch.
+
+(* the weight loops write m_weights(0..size-1); the vector has `size` entries for the weighted kinds (0 for off / bootstrap) *)
+Theorem C12_gb_layout : forall kind size i, gb_layoutb kind size i = true.
+Proof. exact gb_layout_ok. Qed.
+Print Assumptions C12_gb_layout.
+
+(* position i of the weights holds the loss (row 1 of errors_losses) resp. the gradient magnitude of the SAMPLE l[i] *)
+Theorem C12_gb_weights : forall kind l tbl gmag, kind = k_wei_loss \/ kind = k_wei_grad ->
+  length (gb_weights kind l tbl gmag) = length l /\
+  forall i, (i < length l)%nat -> nth i (gb_weights kind l tbl gmag) fzero = weight_of kind tbl gmag (nth i l 0).
+Proof. exact gb_weights_spec. Qed.
+Print Assumptions C12_gb_weights.
+
+(* every kind: members of the input; `count` of them, sorted (all kinds but off); distinct for subsample; off returns the input;
+   premises: std::shuffle permutes, the distribution's contract for the observed draws (gb_contractb), ratio in [0, 1] *)
+Theorem C12_gb_sample : forall shuffle, permutes shuffle -> forall seed call kind ratio l picks tbl gmag,
+  NoDup l -> fin ratio -> (0 <= FR ratio <= 1)%R -> zlen l < 2 ^ 53 ->
+  In kind [k_off; k_subsample; k_bootstrap; k_wei_loss; k_wei_grad] ->
+  gb_contractb kind ratio l (gb_weights kind l tbl gmag) picks = true ->
+  let r := gb_sample shuffle seed call kind ratio l picks in
+  let count := gb_count ratio (zlen l) in
+  0 <= count <= zlen l /\
+  (kind = k_off -> r = l) /\
+  (forall x, In x r -> In x l) /\
+  (kind <> k_off -> zlen r = count /\ StronglySorted Z.le r) /\
+  (kind = k_subsample -> StronglySorted Z.lt r).
+Proof. exact gb_sample_props. Qed.
+Print Assumptions C12_gb_sample.
+
+(* the weighted kinds never return a sample whose own loss / gradient magnitude is not positive *)
+Theorem C12_gb_weighted_support : forall shuffle seed call kind ratio l picks tbl gmag,
+  NoDup l -> kind = k_wei_loss \/ kind = k_wei_grad ->
+  gb_contractb kind ratio l (gb_weights kind l tbl gmag) picks = true ->
+  forall x, In x (gb_sample shuffle seed call kind ratio l picks) ->
+  In x l /\ PrimFloat.ltb fzero (weight_of kind tbl gmag x) = true.
+Proof. exact gb_weighted_support. Qed.
+Print Assumptions C12_gb_weighted_support.
+
+(* ---- non-vacuity of the extension ------------------------------------------------------------------------------------------ *)
+(* the binary64 witness of C12_fl_ball_inside_refuted satisfies every hypothesis of the five ball / norm theorems *)
+Example C12_nonvacuous_fl_ball :
+  let x0 := map FR wit_x0 in let us := map FR wit_u in let radius := FR wit_radius in let z := FR wit_z in
+  let nrm := rnd (R_sqrt.sqrt (sfl wit_tree)) in
+  (length x0 = length us /\ Forall fmt x0 /\ fmt radius /\ 0 < radius /\ 0 <= z <= 1 /\
+   Permutation (sleaves wit_tree) (squares us) /\ Forall (fun b => NU (b * b)) us /\ 0 < sumsq us /\
+   g (length us) <= / 2 /\ g (length us) < 1 /\ Forall (comp_NU (rnd (radius * z)) nrm) us /\
+   norm_lower (length us) (sumsq us) nrm /\ 0 < nrm /\ 0 <= rnd (radius * z))%R.
+Proof. exact wit_hyps. Qed.
+
+Example C12_nonvacuous_fl_twin :
+  ball_ok wit_x0 wit_u wit_radius wit_z wit_nrm = true /\ (0 < sumsq (map FR wit_u))%R /\ (g (length wit_u) <= / 2)%R /\
+  norm_lower (length wit_u) (sumsq (map FR wit_u)) (FR wit_nrm) /\ (INR (2 + 5) * u <= / 4)%R.
+Proof.
+  destruct wit_outside as (A & _). destruct wit_nrm_is_tree as (_ & E & _).
+  destruct wit_hyps as (_ & _ & _ & _ & _ & _ & _ & S0 & G & _ & _ & NL & _).
+  split; [exact A|]. split; [exact S0|]. split; [exact g2_small|]. split.
+  - rewrite E. rewrite map_length in NL. exact NL.
+  - pose proof u_small. simpl. lra.
+Qed.
+
+(* the count theorems: ratio 1/2 = 1 / 2^1 is finite, in [0, 1]; 7 samples -> 3 *)
+Example C12_nonvacuous_gb_count :
+  fin ex_ratio_half /\ FR ex_ratio_half = (IZR 1 * bpow radix2 (- (1)))%R /\ (0 <= FR ex_ratio_half <= 1)%R /\
+  gb_count ex_ratio_half 7 = 3 /\ 1 * 7 / 2 ^ 1 = 3 /\ gb_count fone 7 = 7.
+Proof.
+  destruct FR_ratio_half as [_ E].
+  split; [reflexivity|]. split; [rewrite E; simpl; lra|]. split; [rewrite E; lra|]. repeat split; vm_compute; reflexivity.
+Qed.
+
+(* one call of every kind on 7 non-contiguous samples (ratio 1/2 -> count 3); weights: row 1 of ex_tbl, indexed by SAMPLE *)
+Example C12_nonvacuous_gb_sample :
+  NoDup ex_gl /\ zlen ex_gl < 2 ^ 53 /\
+  gb_sample (shuffle_by ex_oracle) 1 0%nat k_off ex_ratio_half ex_gl [] = ex_gl /\
+  gb_sample (shuffle_by ex_oracle) 1 0%nat k_subsample ex_ratio_half ex_gl [] = [2; 4; 7] /\
+  gb_contractb k_bootstrap ex_ratio_half ex_gl [] [6; 0; 0] = true /\
+  gb_sample (shuffle_by ex_oracle) 1 0%nat k_bootstrap ex_ratio_half ex_gl [6; 0; 0] = [5; 5; 6] /\
+  gb_weights k_wei_loss ex_gl ex_tbl ex_gmag = ex_wl_expected /\
+  gb_contractb k_wei_loss ex_ratio_half ex_gl (gb_weights k_wei_loss ex_gl ex_tbl ex_gmag) [2; 0; 4] = true /\
+  gb_contractb k_wei_loss ex_ratio_half ex_gl (gb_weights k_wei_loss ex_gl ex_tbl ex_gmag) [2; 0; 5] = false /\
+  gb_sample (shuffle_by ex_oracle) 1 0%nat k_wei_loss ex_ratio_half ex_gl [2; 0; 4] = [4; 5; 7] /\
+  gb_weights k_wei_grad ex_gl ex_tbl ex_gmag = ex_wg_expected /\
+  gb_contractb k_wei_grad ex_ratio_half ex_gl (gb_weights k_wei_grad ex_gl ex_tbl ex_gmag) [0; 2; 5] = true /\
+  gb_layoutb k_wei_loss 7 3 = true.
+Proof.
+  split; [repeat constructor; cbn; intuition discriminate|]. split; [reflexivity|].
+  repeat split; vm_compute; reflexivity.
+Qed.
